@@ -86,11 +86,11 @@ package goat
 
 //@ func goat.newHandler
 //@   nopanic[C12.nopanic]
-//@   requires ctx != nil && srv != nil && rw != nil && srv.services != nil
-//@   requires forall j Int :: 0 <= j && j < len(srv.statsHandlers) ==> srv.statsHandlers[j] != nil
+//@   requires ctx != nil && rw != nil && objinv(srv)
 //@   makechan 0 tag 0
 //@   makechan 1 tag 0 class goat.unaryRpcChan
 //@   ensures[C10.conn_ctx_descends] result != nil && desc(result.ctx, ctx) && cancels(result.cancel) == result.ctx
+//@   ensures[C12.handler_wellformed C10.handler_wellformed] objinv(result) && result.srv == srv && result.rw == rw
 
 //@ func goat.(*handler).processUnaryRpc
 //@   nopanic[C12.nopanic]
@@ -105,6 +105,10 @@ package goat
 //@   ensures[C03.error_never_ok] bound("appErr") && appErr != nil ==> result.Status != nil && result.Status.Code != 0
 //@   ensures[C01.reply_body] bound("resp") && resp != nil && bound("err") && err == nil ==> result.Body != nil && result.Body.Data == protoBytes(resp)
 
+//@ objinv[C10.objinv C12.objinv] goat.Server : self.ctx != nil && self.cancel != nil && self.services != nil && (forall j Int :: 0 <= j && j < len(self.statsHandlers) ==> self.statsHandlers[j] != nil)
+//@ objinv[C10.objinv C12.objinv] goat.Server : forall s String :: s in self.services ==> self.services[s] != nil
+//@ objinv[C10.objinv C12.objinv] goat.Server : forall s String :: forall m String :: s in self.services && m in self.services[s].methods ==> self.services[s].methods[m] != nil && self.services[s].methods[m].Handler != nil
+//@ objinv[C10.objinv C12.objinv] goat.Server : forall s String :: forall m String :: s in self.services && m in self.services[s].streams ==> self.services[s].streams[m] != nil && self.services[s].streams[m].Handler != nil
 //@ objinv[C10.objinv C07.objinv] goat.handler : cancels(self.cancel) == self.ctx
 // what RegisterService (reflect-based, not under contract) stores: non-nil descriptors with non-nil handlers
 //@ objinv[C12.objinv C01.objinv] goat.handler : forall s String :: s in self.srv.services ==> self.srv.services[s] != nil
@@ -231,7 +235,8 @@ package goat
 //@ func goat.(*Demux).Run
 //@   nopanic[C18.nopanic]
 //@   loop 0 invariant[C18.run_loop] true
-//@   atcall[C18.handed_to_keys_connection] send : arg1 == rpc && bound("conn") && arg0 == conn.r && bound("id")
+//@   atcall[C18.handed_to_keys_connection] send : arg1 == rpc && bound("conn") && arg0 == conn.r && id == lastret("fnfield:H.goat.Demux.demuxOn")
+//@     | && aftercall("sync.Mutex).Unlock", id in gsd.conns.value && gsd.conns.value[id] == conn)
 
 //@ func goat.(*Demux).Cancel
 //@   nopanic[C18.nopanic]
@@ -346,7 +351,19 @@ package goat
 //@   ensures[C01.one_call C20.one_call] ncalls("call:client.(*RpcMultiplexer).CallUnaryMethod") <= old(ncalls("call:client.(*RpcMultiplexer).CallUnaryMethod")) + 1
 //@   ensures[C03.error_passed_on C13.success_only_with_data] result == nil ==> ncalls("(google.golang.org/grpc/encoding.CodecV2).Unmarshal") == old(ncalls("(google.golang.org/grpc/encoding.CodecV2).Unmarshal")) + 1
 //@   ensures[C20.begin_end_once] ncalls("call:internal.StatsStartServerRPC") == old(ncalls("call:internal.StatsStartServerRPC")) + 1 && ncalls("call:internal.StatsEndRPC") == old(ncalls("call:internal.StatsEndRPC")) + 1
-//@   atcall[C20.end_reports_final_error] internal.StatsEndRPC : arg3 == err
+
+// deferred closure of invoke: the End event carries invoke's final error
+//@ func goat.(*ClientConn).invoke$1
+//@   inline
+//@   atcall[C20.end_reports_final_error] internal.StatsEndRPC : arg3 == err && arg1
+
+//@ func goat.(*handler).processUnaryRpc$1
+//@   inline
+//@   atcall[C20.end_reports_final_error] internal.StatsEndRPC : arg3 == appErr && !arg1
+
+//@ func goat.(*handler).runStream$3
+//@   inline
+//@   atcall[C20.end_reports_final_error] internal.StatsEndRPC : arg3 == appErr && !arg1
 
 //@ func goat.(*ClientConn).Invoke
 //@   nopanic[C13.nopanic]
@@ -413,3 +430,9 @@ package goat
 //@ field[C15.discipline] goat.GoatOverHttp.connectionTimeout init_only by=goat.WithConnectionTimeout$1
 //@ fielddefault[C15.discipline] goat.httpReadWriter init_only
 //@ field[C15.discipline] goat.httpReadWriter.lastActivity atomic
+
+//@ func goat.(*Server).Serve
+//@   nopanic[C10.nopanic]
+//@   requires ctx != nil && rw != nil
+//@   ensures[C10.streams_drained_before_return] ncalls("call:goat.(*handler).cancelAndWaitForStreams") == old(ncalls("call:goat.(*handler).cancelAndWaitForStreams")) + 1
+//@   ensures[C10.serve_once] ncalls("call:goat.(*handler).serve") == old(ncalls("call:goat.(*handler).serve")) + 1
